@@ -70,6 +70,8 @@ func run(r *report.Run, shard, nshards int, replayFile string) {
 		"UploadSmartContract is a plain contract-creation transaction: no compass call, no signature is handed to any contract. Only bytecode and message id are required to influence the bytes; Abi, ConstructorInput (appended to the creation code, compared byte-for-byte by VerifyAgainstTX) and Retries are NOT covered by the signing bytes and are excluded",
 		"not delivered, therefore excluded: SubmitLogicCall.Abi/ContractAddress/ExecutionRequirements/Retries, UploadUserSmartContract.BlockHeight/Id/Retries, CompassHandover.Id, Message.ChainReferenceID/CompassAddr/Assignee/AssignedAtBlockHeight, message id and turnstone id for CompassHandover, gas estimate for SubmitLogicCall/UploadUserSmartContract, batch PalomaBlockCreated/ChainReferenceID/Assignee and transfer id/sender/bridge tax",
 		"replace (PutOptions.MsgIDToReplace) keeps the id of the replaced message by design: it must return exactly that id, allocate nothing, and fail for an id that is not live in that very queue",
+		"BatchQueue (separate counter consensus-batch-queue-counter-) is instantiated by no module registered on this tree (no caller of WithBatch); only the plain Queue is explored",
+		"BFS nodes do not retain their forked context (memory): hash and invariant are evaluated on the real forked state right after the operation; a node that is expanded gets its state rebuilt by re-executing its state-changing calls on a fresh fork of the root and must hash to the recorded value (harness panic otherwise)",
 		"BFS state hash = reference id sets + key set of the consensus store + id counter values; message bodies are dropped from the hash (id allocation reads only the counter and key presence)",
 	}
 
@@ -118,8 +120,7 @@ func run(r *report.Run, shard, nshards int, replayFile string) {
 	// ---- part 2
 	e := newIDEnv(w, r.Thorough())
 	spec := e.spec(r, shard, nshards)
-	// the frontier keeps ~10^5 forked contexts alive; a larger GC target halves the run time
-	debug.SetGCPercent(400)
+	debug.SetGCPercent(200)
 	res := explore.Run(r, spec)
 	r.Extra["id_states"] = float64(res.States)
 	r.Extra["id_transitions"] = float64(res.Transitions)
@@ -127,6 +128,7 @@ func run(r *report.Run, shard, nshards int, replayFile string) {
 	r.Extra["id_replace_ok"] = float64(e.replaced)
 	r.Extra["id_replace_refused"] = float64(e.refused)
 	r.Extra["id_removed"] = float64(e.removed)
+	r.Extra["id_states_rebuilt_and_rehashed"] = float64(e.rebuilt)
 	if shard == 0 {
 		r.Extra["id_depth_completed"] = float64(res.DepthCompleted)
 		r.Extra["id_depth_bound"] = float64(spec.MaxDepth)
@@ -554,7 +556,7 @@ func actions(cdc codec.Codec, thorough bool) []action {
 	})
 
 	// ---- skyway batch: token, each receiver, each amount, nonce, turnstone id, timeout, relayer, gas estimate
-	recv := pick(thorough, addrs[:2], addrs[2])
+	recv := addrs[:2]
 	amounts := pick(thorough,
 		[]sdkmath.Int{sdkmath.NewInt(1), sdkmath.NewIntFromBigInt(new(big.Int).Sub(new(big.Int).Lsh(big.NewInt(1), 256), big.NewInt(1)))},
 		sdkmath.NewIntFromUint64(1<<63))
@@ -620,13 +622,27 @@ func actions(cdc codec.Codec, thorough bool) []action {
 
 var chainRefs = []string{"eth-main", "bnb-main"}
 
+// opRec is one state-changing operation (P put, R replace, D delete).
+type opRec struct {
+	K  byte
+	Q  int
+	ID uint64
+}
+
 type ghost struct {
 	Max  uint64     // largest id ever handed out
 	Live [][]uint64 // per queue: ids currently in the queue, ascending
+
+	// Not part of the state: how to rebuild the application state of this node
+	// (see idEnv.materialise) and the hash / invariant verdict computed on it.
+	path  []opRec
+	light bool
+	hash  string
+	inv   *explore.Fail
 }
 
 func (g *ghost) Clone() explore.Ghost {
-	n := &ghost{Max: g.Max, Live: make([][]uint64, len(g.Live))}
+	n := &ghost{Max: g.Max, Live: make([][]uint64, len(g.Live)), path: append([]opRec{}, g.path...)}
 	for i, l := range g.Live {
 		n.Live[i] = append([]uint64{}, l...)
 	}
@@ -634,7 +650,7 @@ func (g *ghost) Clone() explore.Ghost {
 }
 
 func (g *ghost) Key() string {
-	b, _ := json.Marshal(g)
+	b, _ := json.Marshal(g) // Max and Live only
 	return string(b)
 }
 
@@ -669,8 +685,9 @@ type idEnv struct {
 	w        *world.World
 	qs       []queueDef
 	thorough bool
+	last     *explore.Node // node whose rebuilt context is still held
 
-	fresh, replaced, refused, removed int64
+	fresh, replaced, refused, removed, rebuilt int64
 }
 
 func newIDEnv(w *world.World, thorough bool) *idEnv {
@@ -718,7 +735,86 @@ func (e *idEnv) spec(r *report.Run, shard, nshards int) explore.Spec {
 	return spec
 }
 
+// --- the three real state-changing calls (used by the operations and by materialise)
+
+func (e *idEnv) put(ctx sdk.Context, qi int) (uint64, error) {
+	return e.w.App.ConsensusKeeper.PutMessageInQueue(ctx, e.qs[qi].name, e.qs[qi].msg(0),
+		&consensus.PutOptions{RequireSignatures: true, RequireGasEstimation: qi%4 == 0})
+}
+
+func (e *idEnv) replace(ctx sdk.Context, qi int, id uint64, variant int) (uint64, error) {
+	return e.w.App.ConsensusKeeper.PutMessageInQueue(ctx, e.qs[qi].name, e.qs[qi].msg(variant), &consensus.PutOptions{MsgIDToReplace: id})
+}
+
+func (e *idEnv) remove(ctx sdk.Context, qi int, id uint64) error {
+	return e.w.App.ConsensusKeeper.DeleteJob(ctx, e.qs[qi].name, id)
+}
+
+// Memory: a forked context costs ~20 kB and keeps its ancestors alive, so the
+// search does not keep them. After an operation the hash and the invariant
+// verdict are computed on the real forked state and the fork is dropped; when
+// the node is expanded its state is rebuilt by re-executing its (<= depth)
+// state-changing calls on a fresh fork of the root, and the rebuilt state must
+// hash to the recorded value.
+func (e *idEnv) settle(ctx *sdk.Context, g *ghost) {
+	n := &explore.Node{Ctx: *ctx, Ghost: g}
+	g.inv = e.realInvariant(n)
+	g.hash = e.realHash(n)
+	g.light = true
+	*ctx = e.w.Root
+}
+
+func (e *idEnv) materialise(n *explore.Node) {
+	if e.last != nil && e.last != n {
+		if lg := e.last.Ghost.(*ghost); lg.hash != "" {
+			e.last.Ctx, lg.light = e.w.Root, true
+		}
+	}
+	e.last = n
+	g := n.Ghost.(*ghost)
+	if !g.light {
+		return
+	}
+	ctx := world.Fork(e.w.Root)
+	for _, o := range g.path {
+		var err error
+		switch o.K {
+		case 'P':
+			var id uint64
+			if id, err = e.put(ctx, o.Q); err == nil && id != o.ID {
+				err = fmt.Errorf("put returned %d, recorded %d", id, o.ID)
+			}
+		case 'R':
+			_, err = e.replace(ctx, o.Q, o.ID, 1)
+		case 'D':
+			err = e.remove(ctx, o.Q, o.ID)
+		}
+		if err != nil {
+			panic(fmt.Sprintf("harness: cannot rebuild state %v: %v", g.path, err))
+		}
+	}
+	n.Ctx, g.light = ctx, false
+	e.rebuilt++
+	if h := e.realHash(n); h != g.hash {
+		panic(fmt.Sprintf("harness: rebuilt state of %v hashes differently", g.path))
+	}
+}
+
 func (e *idEnv) hash(n *explore.Node) string {
+	if g := n.Ghost.(*ghost); g.light {
+		return g.hash
+	}
+	return e.realHash(n)
+}
+
+func (e *idEnv) invariant(n *explore.Node) *explore.Fail {
+	if g := n.Ghost.(*ghost); g.light {
+		return g.inv
+	}
+	return e.realInvariant(n)
+}
+
+func (e *idEnv) realHash(n *explore.Node) string {
 	var sb strings.Builder
 	sb.WriteString(n.Ghost.Key())
 	it := n.Ctx.KVStore(e.w.App.GetKey(consensustypes.StoreKey)).Iterator(nil, nil)
@@ -735,10 +831,12 @@ func (e *idEnv) hash(n *explore.Node) string {
 	return sb.String()
 }
 
+const queueStorePrefix = "consensus-queue-signing-type--"
+
 // invariant (every state, read straight from the consensus store): the ids
 // stored under each queue's prefix equal the reference sets; no id lives in two
 // queues; no stored id exceeds the largest id handed out.
-func (e *idEnv) invariant(n *explore.Node) *explore.Fail {
+func (e *idEnv) realInvariant(n *explore.Node) *explore.Fail {
 	g := n.Ghost.(*ghost)
 	got := make([][]uint64, len(e.qs))
 	owner := map[uint64]int{}
@@ -793,19 +891,28 @@ func (e *idEnv) listed(ctx sdk.Context, g *ghost, qi int) *explore.Fail {
 	return nil
 }
 
-const queueStorePrefix = "consensus-queue-signing-type--"
-
 func (e *idEnv) ops(n *explore.Node) []explore.Op {
+	e.materialise(n)
 	g0 := n.Ghost.(*ghost)
-	ck := e.w.App.ConsensusKeeper
 	var ops []explore.Op
+	// op wraps a step: run it on the forked state, then settle (hash + invariant
+	// on the real state, drop the fork).
+	op := func(label string, do func(ctx sdk.Context, g *ghost) *explore.Fail) {
+		ops = append(ops, explore.Op{Label: label, Do: func(ctx *sdk.Context, gg explore.Ghost) *explore.Fail {
+			g := gg.(*ghost)
+			if f := do(*ctx, g); f != nil {
+				return f
+			}
+			e.settle(ctx, g)
+			return nil
+		}})
+	}
 	dead := g0.lastDead()
 	for qi, q := range e.qs {
 		qi, q := qi, q
 		// Put: a fresh id, larger than every id ever handed out anywhere.
-		ops = append(ops, explore.Op{Label: "Put(" + q.short + ")", Do: func(ctx *sdk.Context, gg explore.Ghost) *explore.Fail {
-			g := gg.(*ghost)
-			id, err := ck.PutMessageInQueue(*ctx, q.name, q.msg(0), &consensus.PutOptions{RequireSignatures: true, RequireGasEstimation: qi%4 == 0})
+		op("Put("+q.short+")", func(ctx sdk.Context, g *ghost) *explore.Fail {
+			id, err := e.put(ctx, qi)
 			if err != nil {
 				return explore.Failf("harness:put", "PutMessageInQueue(%s): %v", q.name, err)
 			}
@@ -820,13 +927,14 @@ func (e *idEnv) ops(n *explore.Node) []explore.Op {
 			}
 			g.Max = id
 			g.Live[qi] = append(g.Live[qi], id)
+			g.path = append(g.path, opRec{'P', qi, id})
 			return nil
-		}})
+		})
 		if len(g0.Live[qi]) > 0 {
 			// Replace the newest message of the queue: same id, nothing allocated.
 			target := g0.Live[qi][len(g0.Live[qi])-1]
-			ops = append(ops, explore.Op{Label: fmt.Sprintf("Replace(%s,%d)", q.short, target), Do: func(ctx *sdk.Context, gg explore.Ghost) *explore.Fail {
-				id, err := ck.PutMessageInQueue(*ctx, q.name, q.msg(1), &consensus.PutOptions{MsgIDToReplace: target})
+			op(fmt.Sprintf("Replace(%s,%d)", q.short, target), func(ctx sdk.Context, g *ghost) *explore.Fail {
+				id, err := e.replace(ctx, qi, target, 1)
 				if err != nil {
 					return explore.Failf("harness:replace", "replace of live id %d in %s: %v", target, q.short, err)
 				}
@@ -834,8 +942,9 @@ func (e *idEnv) ops(n *explore.Node) []explore.Op {
 				if id != target {
 					return explore.Failf("replace-changed-id", "replace of id %d in %s returned id %d", target, q.short, id)
 				}
-				return e.listed(*ctx, gg.(*ghost), qi)
-			}})
+				g.path = append(g.path, opRec{'R', qi, target})
+				return e.listed(ctx, g, qi)
+			})
 			// Remove the oldest (and, thorough, the newest) message.
 			victims := []uint64{g0.Live[qi][0]}
 			if e.thorough && len(g0.Live[qi]) > 1 {
@@ -843,9 +952,8 @@ func (e *idEnv) ops(n *explore.Node) []explore.Op {
 			}
 			for _, v := range victims {
 				v := v
-				ops = append(ops, explore.Op{Label: fmt.Sprintf("Remove(%s,%d)", q.short, v), Do: func(ctx *sdk.Context, gg explore.Ghost) *explore.Fail {
-					g := gg.(*ghost)
-					if err := ck.DeleteJob(*ctx, q.name, v); err != nil {
+				op(fmt.Sprintf("Remove(%s,%d)", q.short, v), func(ctx sdk.Context, g *ghost) *explore.Fail {
+					if err := e.remove(ctx, qi, v); err != nil {
 						return explore.Failf("harness:remove", "DeleteJob(%s,%d): %v", q.short, v, err)
 					}
 					e.removed++
@@ -856,20 +964,21 @@ func (e *idEnv) ops(n *explore.Node) []explore.Op {
 						}
 					}
 					g.Live[qi] = keep
-					return e.listed(*ctx, g, qi)
-				}})
+					g.path = append(g.path, opRec{'D', qi, v})
+					return e.listed(ctx, g, qi)
+				})
 			}
 		}
 		// Replace with the id of a removed message: must be refused (no id comes back).
 		if dead != 0 && (qi%4 == 0 || e.thorough) {
-			ops = append(ops, explore.Op{Label: fmt.Sprintf("ReplaceRemoved(%s,%d)", q.short, dead), Do: func(ctx *sdk.Context, gg explore.Ghost) *explore.Fail {
-				id, err := ck.PutMessageInQueue(*ctx, q.name, q.msg(2), &consensus.PutOptions{MsgIDToReplace: dead})
+			op(fmt.Sprintf("ReplaceRemoved(%s,%d)", q.short, dead), func(ctx sdk.Context, g *ghost) *explore.Fail {
+				id, err := e.replace(ctx, qi, dead, 2)
 				if err == nil {
 					return explore.Failf("removed-id-reused", "replace with removed id %d in %s succeeded and returned id %d", dead, q.short, id)
 				}
 				e.refused++
 				return nil
-			}})
+			})
 		}
 		// Replace with an id that lives in another queue: must be refused.
 		if qi%4 == 0 || e.thorough {
@@ -880,14 +989,14 @@ func (e *idEnv) ops(n *explore.Node) []explore.Op {
 				}
 			}
 			if foreign != 0 {
-				ops = append(ops, explore.Op{Label: fmt.Sprintf("ReplaceForeign(%s,%d)", q.short, foreign), Do: func(ctx *sdk.Context, gg explore.Ghost) *explore.Fail {
-					id, err := ck.PutMessageInQueue(*ctx, q.name, q.msg(2), &consensus.PutOptions{MsgIDToReplace: foreign})
+				op(fmt.Sprintf("ReplaceForeign(%s,%d)", q.short, foreign), func(ctx sdk.Context, g *ghost) *explore.Fail {
+					id, err := e.replace(ctx, qi, foreign, 2)
 					if err == nil {
 						return explore.Failf("foreign-id-reused", "replace in %s with id %d that lives in another queue succeeded (returned %d)", q.short, foreign, id)
 					}
 					e.refused++
 					return nil
-				}})
+				})
 			}
 		}
 	}
